@@ -139,7 +139,7 @@ package server
 
 //@ func (*Server).Set
 //@ requires {C18} storeOK(server) && conn != nil
-//@ assigns sm_dom[&server.Databases.Map], sm_val[&server.Databases.Map], sm_dom[&recs(server, conn.id).Map], sm_val[&recs(server, conn.id).Map]
+//@ assigns sm_dom[&server.Databases.Map], sm_val[&server.Databases.Map], sm_dom[&recs(server, conn.id).Map], sm_val[&recs(server, conn.id).Map], clock_now
 //@ ensures {C18} storeOK(server) && err == nil
 //@ ensures {C18} opt.NX && old(kHas(server, conn.id, key)) ==> intReply(result0, 0) && recOf(recs(server, conn.id), key) == old(recOf(recs(server, conn.id), key))
 //@ ensures {C18} !(opt.NX && old(kHas(server, conn.id, key))) ==> kIsStr(server, conn.id, key) && kStr(server, conn.id, key) == val
@@ -292,7 +292,7 @@ package server
 
 //@ func (*Database).GetListRecord
 //@ requires {C18} dbOK(db)
-//@ assigns sm_dom[&db.Records.Map], sm_val[&db.Records.Map]
+//@ assigns sm_dom[&db.Records.Map], sm_val[&db.Records.Map], clock_now
 //@ ensures {C18} dbOK(db)
 //@ ensures {C18} err == nil <==> (!old(isRec(db.Records, key)) || typeis(old(recOf(db.Records, key)).Data, "*server.List"))
 //@ ensures {C18} err == nil ==> result1 != nil
@@ -351,7 +351,7 @@ package server
 
 //@ func (*Server).pop
 //@ requires {C18} storeOK(server) && conn != nil
-//@ assigns sm_dom[&server.Databases.Map], sm_val[&server.Databases.Map], sm_dom[&recs(server, conn.id).Map], List.elements
+//@ assigns sm_dom[&server.Databases.Map], sm_val[&server.Databases.Map], sm_dom[&recs(server, conn.id).Map], List.elements, clock_now
 //@ ensures {C18} storeOK(server)
 //@ ensures {C18} !old(kHas(server, conn.id, key)) ==> err == nil && nilReply(result0) && !kHas(server, conn.id, key)
 //@ ensures {C18} old(kIsList(server, conn.id, key)) ==> err == nil
@@ -371,7 +371,7 @@ package server
 
 //@ func (*Server).push
 //@ requires {C18} storeOK(server) && conn != nil
-//@ assigns sm_dom[&server.Databases.Map], sm_val[&server.Databases.Map], sm_dom[&recs(server, conn.id).Map], sm_val[&recs(server, conn.id).Map], List.elements, comp:E|Str, alloc
+//@ assigns sm_dom[&server.Databases.Map], sm_val[&server.Databases.Map], sm_dom[&recs(server, conn.id).Map], sm_val[&recs(server, conn.id).Map], List.elements, comp:E|Str, alloc, clock_now
 //@ ensures {C18} storeOK(server)
 //@ ensures {C18} opt.X && !old(kHas(server, conn.id, key)) ==> err == nil && intReply(result0, 0) && !kHas(server, conn.id, key)
 //@ ensures {C18} (!opt.X || old(kHas(server, conn.id, key))) && (!old(kHas(server, conn.id, key)) || old(kIsList(server, conn.id, key))) ==> err == nil && kIsList(server, conn.id, key)
@@ -621,7 +621,7 @@ package server
 
 //@ func (*Database).GetSetRecord
 //@ requires {C18} dbOK(db)
-//@ assigns sm_dom[&db.Records.Map], sm_val[&db.Records.Map]
+//@ assigns sm_dom[&db.Records.Map], sm_val[&db.Records.Map], clock_now
 //@ ensures {C18} dbOK(db)
 //@ ensures {C18} err == nil <==> (!old(isRec(db.Records, key)) || typeis(old(recOf(db.Records, key)).Data, "*server.Set"))
 //@ ensures {C18} err == nil ==> result1 != nil
@@ -642,7 +642,7 @@ package server
 
 //@ func (*Database).GetZSetRecord
 //@ requires {C18} dbOK(db)
-//@ assigns sm_dom[&db.Records.Map], sm_val[&db.Records.Map]
+//@ assigns sm_dom[&db.Records.Map], sm_val[&db.Records.Map], clock_now
 //@ ensures {C18} dbOK(db)
 //@ ensures {C18} err == nil <==> (!old(isRec(db.Records, key)) || typeis(old(recOf(db.Records, key)).Data, "*server.ZSet"))
 //@ ensures {C18} err == nil ==> result1 != nil
@@ -672,7 +672,7 @@ package server
 
 //@ func (*Server).SAdd
 //@ requires {C18} storeOK(server) && conn != nil && (kIsSet(server, conn.id, key) ==> noDupStr(kSet(server, conn.id, key).members) && arr(members) != arr(kSet(server, conn.id, key).members))
-//@ assigns sm_dom[&server.Databases.Map], sm_val[&server.Databases.Map], sm_dom[&recs(server, conn.id).Map], sm_val[&recs(server, conn.id).Map], Set.members, comp:E|Str, alloc
+//@ assigns sm_dom[&server.Databases.Map], sm_val[&server.Databases.Map], sm_dom[&recs(server, conn.id).Map], sm_val[&recs(server, conn.id).Map], Set.members, comp:E|Str, alloc, clock_now
 //@ ensures {C18} storeOK(server)
 //@ ensures {C18} (!old(kHas(server, conn.id, key)) || old(kIsSet(server, conn.id, key))) ==> err == nil && kIsSet(server, conn.id, key) && noDupStr(kSet(server, conn.id, key).members)
 //@ ensures {C18} old(kIsSet(server, conn.id, key)) ==> kSet(server, conn.id, key) == old(kSet(server, conn.id, key)) && intReply(result0, len(kSet(server, conn.id, key).members) - old(len(kSet(server, conn.id, key).members)))
@@ -709,7 +709,7 @@ package server
 //@ func (*Server).ZAdd
 //@ requires {C18} storeOK(server) && conn != nil && (forall k int :: 0 <= k && k < len(members) ==> members[k] != nil && !isNaN(members[k].Score))
 //@ requires {C18} kIsZSet(server, conn.id, key) ==> zOK(kZSet(server, conn.id, key)) && arr(members) != arr(kZSet(server, conn.id, key).members)
-//@ assigns sm_dom[&server.Databases.Map], sm_val[&server.Databases.Map], sm_dom[&recs(server, conn.id).Map], sm_val[&recs(server, conn.id).Map], ZSet.members, comp:E|Ref, alloc
+//@ assigns sm_dom[&server.Databases.Map], sm_val[&server.Databases.Map], sm_dom[&recs(server, conn.id).Map], sm_val[&recs(server, conn.id).Map], ZSet.members, comp:E|Ref, alloc, clock_now
 //@ ensures {C18} storeOK(server)
 //@ ensures {C18} (!old(kHas(server, conn.id, key)) || old(kIsZSet(server, conn.id, key))) ==> err == nil && kIsZSet(server, conn.id, key) && zOK(kZSet(server, conn.id, key))
 //@ ensures {C18} old(kIsZSet(server, conn.id, key)) ==> kZSet(server, conn.id, key) == old(kZSet(server, conn.id, key)) && intReply(result0, len(kZSet(server, conn.id, key).members) - old(len(kZSet(server, conn.id, key).members)))
@@ -721,7 +721,7 @@ package server
 //@ func (*Server).ZIncBy
 //@ requires {C18} storeOK(server) && conn != nil && !isNaN(inc)
 //@ requires {C18} kIsZSet(server, conn.id, key) ==> zOK(kZSet(server, conn.id, key))
-//@ assigns sm_dom[&server.Databases.Map], sm_val[&server.Databases.Map], sm_dom[&recs(server, conn.id).Map], sm_val[&recs(server, conn.id).Map], ZSet.members, redis.ZSetMember.Score, comp:E|Ref, alloc
+//@ assigns sm_dom[&server.Databases.Map], sm_val[&server.Databases.Map], sm_dom[&recs(server, conn.id).Map], sm_val[&recs(server, conn.id).Map], ZSet.members, redis.ZSetMember.Score, comp:E|Ref, alloc, clock_now
 //@ ensures {C18} storeOK(server)
 //@ ensures {C18} err == nil ==> kIsZSet(server, conn.id, key) && zOK(kZSet(server, conn.id, key))
 //@ ensures {C18} err == nil ==> result0 != nil && result0.Type == proto.BulkMessage && exists i int :: 0 <= i && i < len(kZSet(server, conn.id, key).members) && kZSet(server, conn.id, key).members[i].Member == member && string(result0.bytes) == formatF(kZSet(server, conn.id, key).members[i].Score)
@@ -789,7 +789,7 @@ package server
 
 //@ func (*Server).HSet
 //@ requires {C18} storeOK(server) && conn != nil
-//@ assigns sm_dom[&server.Databases.Map], sm_val[&server.Databases.Map], sm_dom[&recs(server, conn.id).Map], sm_val[&recs(server, conn.id).Map], map(kHash(server, conn.id, key))
+//@ assigns sm_dom[&server.Databases.Map], sm_val[&server.Databases.Map], sm_dom[&recs(server, conn.id).Map], sm_val[&recs(server, conn.id).Map], map(kHash(server, conn.id, key)), clock_now
 //@ ensures {C18} storeOK(server) && err == nil
 //@ ensures {C18} !old(kHas(server, conn.id, key)) ==> kIsHash(server, conn.id, key) && dom(kHash(server, conn.id, key), field) && kHash(server, conn.id, key)[field] == val && intReply(result0, 1) && (forall f string :: f != field ==> !dom(kHash(server, conn.id, key), f))
 //@ ensures {C18} old(kIsHash(server, conn.id, key)) ==> kIsHash(server, conn.id, key) && kHash(server, conn.id, key) == old(kHash(server, conn.id, key))
